@@ -10,15 +10,16 @@ Cases == JsonDeserialize(IOEnv.CASES_FILE)
 VARIABLES i, e, prev
 vars == <<i, e, prev>>
 
-Order == <<"simplify", "detect", "worst", "corner", "cluster", "map">>
+\* c.order: the stage sequence of this pipeline (the demo composition by default; the Z-method and "fusion" demo variants
+\* skip or replace stages); c.detmax: largest position the detection stage may return (r-2 for multi_knee)
 EventClause(c, k, ev, pv) ==
-    IF ev.stage # Order[k] THEN <<"stage-completes", "unexpected stage", ev.stage>>
+    IF k > Len(c.order) \/ ev.stage # c.order[k] THEN <<"stage-completes", "unexpected stage", ev.stage>>
     ELSE IF ev.outcome # "returned" THEN <<"stage-completes", ev.stage, ev.outcome>>
     ELSE IF ev.stage = "simplify" THEN
         (IF Len(ev.out) >= 2 /\ StrictInc(ev.out) /\ ev.out[1] = 0 /\ ev.out[Len(ev.out)] = c.n - 1
          THEN <<"ok">> ELSE <<"stage-completes", "simplify", "not a reduction">>)
     ELSE IF ev.stage = "detect" THEN
-        (IF StrictInc(ev.out) /\ \A j \in 1..Len(ev.out) : ev.out[j] >= 0 /\ ev.out[j] <= Len(c.hred) - 2
+        (IF StrictInc(ev.out) /\ \A j \in 1..Len(ev.out) : ev.out[j] >= 0 /\ ev.out[j] <= c.detmax
          THEN <<"ok">> ELSE <<"stage-completes", "detect", "not a knee list of the reduced curve", ev.out>>)
     ELSE IF ev.stage \in {"worst", "corner", "cluster"} THEN
         (IF ~IsSubseq(ev.out, pv) THEN <<"filter-subsequence", ev.stage, pv, ev.out>>
